@@ -347,9 +347,10 @@ CLAIMS = {
              "Parse's message. OUTSIDE Lean: that denote "
              "agrees with encoding/json (external library) - checked on every generated document by the differential run with "
              "UseNumber.",
-        note="strconv.ParseFloat's acceptance of the decimal lexemes is a hypothesis (a model parameter). -0 is not in the subset. "
+        note="THE GRAMMAR IS TIED BY TRANSLATION (Props/C16J.lean): examples/json/json.NewParser, combinator.Sentence and text.Trim are read from /repo on every run as terms of the model's grammar type (factgen -out-json -> Generated/FactsJson.lean) and proved EQUAL to Gjson.env / G.sentence / the root's trims by rfl (c16j_source_grammar, c16j_sentence_trim); c16_decides is restated for the extracted grammar (c16j_decides_source). "
+             "strconv.ParseFloat's acceptance of the decimal lexemes is a hypothesis (a model parameter). -0 is not in the subset. "
              "c16_json_tree_not_evalSafe: key/value nodes carry no interpreter, so no-panic is proved directly, not via C04's EvalSafe.",
-        technique="Lean 4 theorems on a closed grammar term (forward symbolic execution of the parser model by induction on the document, derivation inversion, evaluation = denotation) + grammar-identity stream + differential run against encoding/json"),
+        technique="Lean 4 theorems on a closed grammar term (forward symbolic execution of the parser model by induction on the document, derivation inversion, evaluation = denotation) + grammar extracted from the source and proved equal to the closed term (rfl) + grammar-identity stream + differential run against encoding/json"),
     "C15": dict(
         text="Machine-checked proof (Lean 4) that the slice-heap/map-heap model of IntSet/IntMap refines the plain set/map "
              "specification for every history and every append growth policy (c15_refine, c15_sorted, c15_grow_irrelevant), tied to "
